@@ -19,9 +19,7 @@ NS = 'datacake_node::nodes_selector::'
 
 def root_local(body, flow, local):
     """the non-reference local a (chain of) reference(s) points to"""
-    back = flow.backward([local])
-    out = [l for l in back if not body.local_ty(l).startswith('&') and not body.local_ty(l).startswith('*')]
-    return out
+    return sorted(referent_roots(body, local))
 
 
 def check_actor(ctx, facts):
@@ -52,7 +50,7 @@ def check_actor(ctx, facts):
 
     def on_M(t):
         l = op_local(t['args'][0]) if t['args'] else None
-        return l is not None and M in direct.backward([l])
+        return l is not None and M in referent_roots(body, l)
     inserts = [(b, t) for b, t in calls if cname(t) == 'alloc::collections::btree::map::BTreeMap::insert' and on_M(t)]
     resets = [(b, t) for b, t in calls if cname(t) in ('alloc::collections::btree::map::BTreeMap::clear', 'alloc::collections::btree::map::BTreeMap::retain') and on_M(t)]
     assigns = [(b, s) for b, j, s in body.assigns() if s['lhs']['l'] == M and not s['lhs']['p'] and b != 0
@@ -99,7 +97,7 @@ def check_actor(ctx, facts):
     if C is None:
         ctx.ok('C15.N2', 'cache', site(body), 'no result cache found (nothing to invalidate)', nontrivial=False)
     else:
-        clears = [b for b, t in calls if cname(t) == 'std::collections::hash::map::HashMap::clear' and C in direct.backward([op_local(t['args'][0])])]
+        clears = [b for b, t in calls if cname(t) == 'std::collections::hash::map::HashMap::clear' and C in referent_roots(body, op_local(t['args'][0]))]
         clears += [b for b, j, s in body.assigns() if s['lhs']['l'] == C and not s['lhs']['p'] and body.edge_dominates(arm, b)]
         good = bool(clears) and body.must_pass([arm[1]], clears, hdr)
         ctx.ob('C15.N2', 'cache-cleared', good, site(body),
